@@ -39,9 +39,9 @@ pub fn cases(tier: Tier) -> Vec<Case> {
         Case { big_value: false, fsync_fault: false, mmap_fault: false, writers: 3, readers: 0, liveness: false, num_pages: 4, bound: if q { 1 } else { 2 } },
         Case { big_value: false, fsync_fault: false, mmap_fault: false, writers: 2, readers: 0, liveness: false, num_pages: 64, bound: if q { 3 } else { 4 } },
     ];
-    v.push(Case { big_value: false, fsync_fault: false, mmap_fault: true, writers: 1, readers: 2, liveness: false, num_pages: 4, bound: if q { 2 } else { 3 } });
+    v.push(Case { big_value: false, fsync_fault: false, mmap_fault: true, writers: 1, readers: if q { 1 } else { 2 }, liveness: false, num_pages: 4, bound: if q { 2 } else { 3 } });
     v.push(Case { big_value: false, fsync_fault: false, mmap_fault: true, writers: 2, readers: 1, liveness: false, num_pages: 4, bound: if q { 1 } else { 2 } });
-    v.push(Case { big_value: false, fsync_fault: true, mmap_fault: false, writers: 1, readers: 2, liveness: false, num_pages: 64, bound: if q { 2 } else { 3 } });
+    v.push(Case { big_value: false, fsync_fault: true, mmap_fault: false, writers: 1, readers: if q { 1 } else { 2 }, liveness: false, num_pages: 64, bound: if q { 2 } else { 3 } });
     v.push(Case { big_value: false, fsync_fault: true, mmap_fault: false, writers: 2, readers: 1, liveness: false, num_pages: 64, bound: if q { 1 } else { 2 } });
     v.push(Case { big_value: true, fsync_fault: false, mmap_fault: false, writers: 2, readers: 1, liveness: false, num_pages: 4, bound: if q { 0 } else { 1 } });
     if !q {
